@@ -11,7 +11,7 @@ From Coq Require Import List Bool NArith PeanoNat.
 Import ListNotations.
 Require Import PV.Binder.Kind PV.Gen.Kinds PV.Binder.Sig PV.Binder.Bind PV.Binder.PyBind.
 Require Import PV.Proofs.BinderConcrete PV.Proofs.BinderValid PV.Proofs.BinderStar PV.Proofs.BinderMain PV.Proofs.BinderDef PV.Proofs.BinderGen PV.Proofs.BinderPositions.
-Require Import PV.Gen.BinderShape.
+Require Import PV.Binder.BindCore PV.Gen.BinderShape.
 Open Scope N_scope.
 
 (* 1. Concrete call shapes: for EVERY valid signature (any number of parameters,
@@ -106,17 +106,30 @@ Theorem C05_valid_sig_matches_def : forall s, valid_sig s = def_header_ok s.
 Proof. exact valid_sig_matches_def. Qed.
 Print Assumptions C05_valid_sig_matches_def.
 
-(* 7. Tie to the current source: the four rejecting checks after the loop of
-      Signature.bind_arguments, as translated from signature.py on this run
-      (Gen/BinderShape.v, gen_finish), are the ones of the model; all theorems above are
-      therefore about the loop model followed by the GENERATED final checks. *)
-Theorem C05_bind_uses_generated_finish : forall s a,
-  bind s a = match bind_params a init_state s with
-             | None => None
-             | Some st => if gen_finish a st then Some (rev (bound st)) else None
-             end.
-Proof. exact bind_uses_generated_finish. Qed.
-Print Assumptions C05_bind_uses_generated_finish.
+(* 7. Tie to the current source.  harness/translate/binder.py regenerates from
+      signature.py, on every run, (a) the five per-kind arms of the loop of
+      Signature.bind_arguments by symbolic execution of their statements (gen_step),
+      after checking the initial values of the tracked variables, and (b) the four
+      rejecting checks after the loop (gen_finish).  The hand model is PROVED equal to
+      them, so all theorems above are about what the source says now, and a
+      behaviour-preserving refactor of bind_arguments re-proves instead of alarming.
+      (What *args / **kwargs collect is value construction: correspondence-checked.) *)
+Theorem C05_gen_step_is_model : forall a st p, gen_step a (core st) p = step_core a st p.
+Proof. exact gen_step_is_model. Qed.
+Print Assumptions C05_gen_step_is_model.
+
+Theorem C05_gen_finish_is_model : forall a st, gen_finish a (core st) = finish_with eka a st.
+Proof. exact gen_finish_is_model. Qed.
+Print Assumptions C05_gen_finish_is_model.
+
+(* the binder's verdict is computed entirely by generated code *)
+Theorem C05_accepts_is_generated : forall s a,
+  accepts s a = match gen_loop a (mkG 0 [] false false false) s with
+                | Some (g, _) => gen_finish a g
+                | None => false
+                end.
+Proof. exact accepts_is_generated. Qed.
+Print Assumptions C05_accepts_is_generated.
 
 (* 8. Positions: for a concrete call that binds, the entry the binder records for EVERY
       parameter agrees with where CPython takes that parameter's value from (`agrees`):
